@@ -308,6 +308,9 @@ def run(rep):
     # the section reaches the assembled output unconditionally (shared rule, lib/sections.py)
     from sections import check_wiring
     check_wiring(rep, 'C07.section-wiring', ['VERTEX_ATTRIBUTES', 'VertexEntry <'], 'vertex-sections')
+    # the vertex entry helper is usable only if the entry-name constant it refers to is the one that is defined (C14's sibling-agreement rule)
+    from common import include
+    include(rep, 'c14', ('C14.entry-constants',), 'entry-constant-defined')
 
 
 def strip_cast(t):
